@@ -407,7 +407,9 @@ def _validate_wait_for_references(nodes: dict[str, HyperNode]) -> None:
 
     for node in nodes.values():
         for name in node.wait_for:
-            if name not in all_outputs:
+            # a name only the waiter itself produces is never produced before it runs
+            produced_elsewhere = any(name in other.outputs for other in nodes.values() if other is not node)
+            if name not in all_outputs or not produced_elsewhere:
                 suggestion = _find_similar_names(name, all_outputs)
                 msg = (
                     f"Node '{node.name}' has wait_for='{name}' but no node produces it\n\n"
